@@ -222,7 +222,7 @@ func items(tier string) []item {
 }
 
 type local struct {
-	execs, steps, newSteps, points, pruned int64
+	execs, steps, newSteps, points, pruned, hbAcc int64
 }
 
 func runItem(it item, shard, n int, res *ev.Result, lc *local, stop func() bool) {
@@ -245,6 +245,17 @@ func runItem(it item, shard, n int, res *ev.Result, lc *local, stop func() bool)
 		if x.Shadow {
 			return
 		}
+		for _, v := range r.Races {
+			c := base
+			c.Choices = x.Choices()
+			attrs := map[string]any{"_scenario": it.sc.Name} // one class per pair of source positions, whatever the scenario
+			for k, val := range v.Attrs {
+				attrs[k] = val
+			}
+			res.Violate(ev.Violation{Check: "lifecycle", Kind: v.Kind, Attrs: attrs,
+				Msg: fmt.Sprintf("%s cb=%04b handler=%s control=%s@%d d<=%d choices=%v: %s", it.sc.Name, it.sc.Callbacks, it.sc.Handler, it.sc.Control, it.sc.ControlAt, it.budget, c.Choices, v.Msg), Case: c})
+		}
+		lc.hbAcc += int64(r.Out.HBAccesses)
 		if r.Out.Pruned {
 			lc.pruned++
 			return
@@ -308,6 +319,7 @@ func run(tier string, shard, n int, res *ev.Result) {
 	res.Add("tree_nodes", lc.newSteps)
 	res.Add("choice_points", lc.points)
 	res.Add("sleep_set_pruned", lc.pruned)
+	res.Add("hb_field_accesses_checked", lc.hbAcc)
 	res.DistinctAdd("nontrivial", lc.execs)
 	if shard == 0 {
 		res.Add("scenarios", int64(len(its)))
@@ -335,7 +347,7 @@ func replay(check string, raw json.RawMessage, res *ev.Result) {
 			}
 			r = srvx.Run(c.Scenario, cfg)
 		}, c.Choices)
-		sig := fmt.Sprint(r.Summary, r.V, len(r.Out.Trace))
+		sig := fmt.Sprint(r.Summary, r.V, r.Races, len(r.Out.Trace))
 		if i > 0 && sig != prev {
 			fmt.Printf("INCONCLUSIVE property=%s replay is not deterministic\n", prop)
 			os.Exit(3)
@@ -348,7 +360,7 @@ func replay(check string, raw json.RawMessage, res *ev.Result) {
 			if r.Out.Crash != "" {
 				fmt.Println(r.Out.Crash)
 			}
-			for _, v := range r.V {
+			for _, v := range append(append([]srvx.V{}, r.Races...), r.V...) {
 				res.Violate(ev.Violation{Check: check, Kind: v.Kind, Attrs: v.Attrs, Msg: v.Msg, Case: c})
 			}
 		}
@@ -366,7 +378,7 @@ func main() {
 			"every access to a mutable field, every select). An execution is non-trivial when it ran to completion under the oracles; executions are distinct by construction " +
 			"(distinct choice sequences).",
 		Assumptions: []string{
-			"sequential consistency: the cooperative scheduler cannot show data races that have no sequentially consistent symptom (see race pass)",
+			"executions are sequentially consistent (cooperative scheduler); reads / writes of the mutable fields of Server and connection are judged for happens-before races in every explored schedule (vector clocks over the program's own synchronisation; edges over-approximated, so a report is never invented); what the transformer cannot place is left to the auxiliary -race pass",
 			"in-memory network implements the net.Conn/net.Listener contract the server relies on; time is virtual",
 			"schedules beyond the stated deviation bound, more than 3 clients and handler durations other than 0/10/120 ms are not covered",
 		},
